@@ -7,11 +7,11 @@ CLAIMS = {
          "SEQ engine + sorted-map reference model, maintenance placement as replayable input"),
  "C04": ("exploration", "histories mixing journaled writes, batches, transactions, clear, bulk ingestion over existing keys, keyspace delete/re-create, maintenance and repeated clean reopen; full model equality (names and content, point reads = scans) before every close and after every reopen",
          "SEQ engine + reference model across close/reopen cycles"),
- "C05": ("exploration", "SEQ part: lifetimes of snapshots, read transactions, write-transaction views and lazily consumed iterators (several opened at the same instant, closed in any order) interleaved with writes, clears, ingestions, every maintenance step, snapshot GC and 10k-close bursts; every read through a view is compared with the model copy frozen at its creation",
+ "C05": ("exploration", "SEQ part (3 of 4 cases): lifetimes of snapshots, read transactions, write-transaction views and lazily consumed iterators (several opened at the same instant, closed in any order) interleaved with writes, clears, ingestions, every maintenance step, snapshot GC and 10k-close bursts; every read through a view is compared with the model copy frozen at its creation. THR part (every 4th case): reader threads hold views while writer threads and fjall workers run under the seeded scheduler; each view must be repeatable and equal one instant between invocation and return of its creation (linearizability with snapshot observations)",
          "SEQ engine, frozen model copies per view"),
- "C07": ("exploration", "SEQ part: 2-4 optimistic transactions open at once (incl. several begun at the same instant), all read and write methods, values derived from reads, helper single-ops interleaved; brute-force search for a serial order consistent with real time that reproduces every recorded read and the final state",
+ "C07": ("exploration", "SEQ part (3 of 4 cases): 2-4 optimistic transactions open at once (incl. several begun at the same instant), all read and write methods, values derived from reads, helper single-ops interleaved; brute-force search for a serial order consistent with real time that reproduces every recorded read and the final state. THR part: 2-3 threads running transactions and helper ops under the seeded scheduler with yield points inside Oracle::with_commit, same checker with scheduler stamps as real time",
          "SEQ interleaving of transaction handles + brute-force serialisability checker"),
- "C08": ("exploration", "SEQ part: in-transaction programs on both transactional databases compared op by op with snapshot+overlay model (read-your-writes, last write wins, take/fetch_update/update_fetch return values), outside reads see nothing before commit, commit applies the final write per key at once, rollback/drop change nothing",
+ "C08": ("exploration", "SEQ part (3 of 4 cases): in-transaction programs on both transactional databases compared op by op with snapshot+overlay model (read-your-writes, last write wins, take/fetch_update/update_fetch return values), outside reads see nothing before commit, commit applies the final write per key at once, rollback/drop change nothing. THR part: 2-3 threads running single-writer read-modify-write transactions whose new value is derived from the value read; monitor: never two live single-writer transactions; serial-order checker: no lost update",
          "SEQ engine, snapshot+overlay transaction model"),
  "C11": ("exploration", "pre-reopen history classes (journal only, tables only, both, last level, ingested, cleared, tombstone in another keyspace) x 1-4 clean reopen cycles, then overwrite / remove / snapshot reads against the model; after every reopen the seqno counter must exceed every seqno held by any keyspace",
          "SEQ engine + model, doc-hidden seqno()/tree accessors for the counter clause"),
@@ -35,6 +35,10 @@ CLAIMS = {
          "journal round trip across compression settings + exhaustive single-byte damage sweep"),
  "C17": ("exploration", "open / keyspace handle / clone / drop / second-open sequences on all three database kinds with 0-2 real worker threads and queued background work at drop time: second open must fail with Locked (and leave the directory digest unchanged when no worker runs) while any handle lives, and succeed immediately after the last drop with the full content; version marker absent / empty / arbitrary bytes / FJL+v for all v != 3: open refused and directory digest unchanged",
          "handle-lifetime sequences + version-marker sweep with directory digests"),
+ "C06": ("exploration", "THR engine: 1-2 writer threads committing multi-keyspace batches / transactions, 1-2 reader threads taking snapshots / read transactions / single scans and reading across keyspaces, a third thread keeping fjall's own 1-2 worker threads busy with rotations, flushes and compactions; every hand-over between threads happens at hook points inside the commit critical section (after seqno draw, after journal append, after each item apply, before publish) and is chosen by the seeded scheduler; each snapshot observation must be one atomic read in a linearization of the batch commits",
+         "seeded baton scheduler over real threads + linearizability checker with snapshot observations as atomic multi-key reads"),
+ "C14": ("exploration", "THR engine: 2-4 client threads x 3-10 single operations (insert, remove, get, contains_key, size_of; classes with scans, small batches and bulk ingestion) over 2-3 keys with tiny memtables and a scaled journal rotation threshold so that fjall's 1-2 worker threads rotate, flush, compact and rotate journals continuously; recorded invoke/return stamps are checked for linearizability against the map model including the final content; deadlock / no-progress detection (every live thread blocked) and a step budget after which the scheduler turns fair decide the liveness clause",
+         "seeded baton scheduler + Wing-Gong linearizability search + exact deadlock detection"),
 }
 NOTE = "samples, does not enumerate; lsm-tree/flume/dashmap operations are atomic steps; SEQ replaces the worker thread by explicit steps into the real worker_tick"
 hooks_commits = subprocess.check_output(["git","-C","/repo","log","--format=%h","--grep=^verif hooks"], text=True).split()
